@@ -22,6 +22,9 @@ class Ctx:
         self.exports = []       # names exported by this file
         self.maybe_odd = False
         self.defined_so_far = set()
+        self.aliases = []
+        self.alias_defs = []
+        self.own_labels = set()
         self.n = 0
 
     def fresh(self, prefix):
@@ -71,6 +74,28 @@ def addr_expr(ctx, rnd, labels):
         return apm.num(rnd.choice([0, 0o1000, 0o177776, 0o100000, rnd.randrange(0x10000)]))
     lab = rnd.choice(labels)
     r = rnd.random()
+    own = [l for l in labels if l in ctx.own_labels]
+    if ctx.opts.get("aliases", True) and own and rnd.random() < 0.2:
+        # an alias: a constant whose value is an address (label + k, possibly through a chain), defined anywhere in the file,
+        # then used with coefficients other than +1 whose net effect still fits 16 bits
+        if ctx.aliases and rnd.random() < 0.6:
+            al = rnd.choice(ctx.aliases)
+        else:
+            al = ctx.fresh("ali")
+            target = ("sym", rnd.choice(own)) if not ctx.aliases or rnd.random() < 0.6 else ("sym", rnd.choice(ctx.aliases))
+            ctx.aliases.append(al)
+            ctx.alias_defs.append(apm.assign(al, ("bin", "+", target, apm.num(rnd.randrange(0, 12)))))
+        lab2 = rnd.choice(own)
+        form = rnd.random()
+        if form < 0.25:
+            return ("sym", al)
+        if form < 0.45:
+            return ("bin", "-", ("bin", "*", apm.num(3), ("sym", al)), ("bin", "*", apm.num(2), ("sym", lab2)))
+        if form < 0.65:
+            return ("bin", "-", ("sym", lab2), ("sym", al))
+        if form < 0.8:
+            return ("bin", "+", ("bin", "-", apm.num(10), ("sym", al)), ("bin", "*", apm.num(2), ("sym", lab2)))
+        return ("bin", "-", ("sym", al), ("sym", lab2))
     if r < 0.5:
         return ("sym", lab)
     if r < 0.7:
@@ -137,7 +162,7 @@ def gen_stmt(ctx, rnd, labels, near, depth=0):
             out.append(apm.insn(rnd.choice(["emt", "trap"]), ("inl", apm.num(rnd.randrange(256)))))
     elif r < 0.55:
         d = rnd.choice([".word", ".word", ".byte", ".dword"])
-        n = rnd.randrange(1, 5)
+        n = rnd.randrange(1, 5) if rnd.random() < 0.93 else 0
         if d == ".byte":
             out.append(apm.data(d, *[apm.num(rnd.randrange(-255, 256) if rnd.random() < 0.2 else rnd.randrange(256)) for _ in range(n)]))
             ctx.maybe_odd = True
@@ -201,6 +226,7 @@ def gen_file(rnd, fileno, name, opts, shared_exports=(), nstmt=None):
     n = nstmt if nstmt is not None else rnd.randrange(3, 25)
     nlabels = max(1, n // 3)
     label_names = [ctx.fresh("lbl") for _ in range(nlabels)]
+    ctx.own_labels = set(label_names)
     # constants, possibly chained, defined at random places (before or after use)
     for _ in range(rnd.randrange(0, 5)):
         e, v = const_expr(ctx, rnd)
@@ -233,6 +259,9 @@ def gen_file(rnd, fileno, name, opts, shared_exports=(), nstmt=None):
     # sprinkle the constant definitions anywhere at top level
     for d in ctx.pending_defs:
         stmts.insert(rnd.randrange(len(stmts) + 1), d)
+    # alias definitions: anywhere, in any order relative to each other and to the labels they mention (chains in reverse order too)
+    for d in (reversed(ctx.alias_defs) if rnd.random() < 0.5 else ctx.alias_defs):
+        stmts.insert(rnd.choice([0, rnd.randrange(len(stmts) + 1), len(stmts)]), d)
     ctx.labels = label_names
     ctx.exports = exported
     return apm.SrcFile(name, stmts), ctx
